@@ -212,6 +212,7 @@ class QuicSession:
                     decryptor = self.decryptors["Early"]
         try:
 
+            largest_server, largest_client = dict(self.packet_number_server), dict(self.packet_number_client)
             packet_number = self.get_full_packet_number(quic_packet)
 
             if isinstance(quic_packet, LongQuicPacket):
@@ -224,7 +225,12 @@ class QuicSession:
                         associated_data = quic_packet.first_byte + quic_packet.version + quic_packet.dcid_len + quic_packet.dcid + quic_packet.scid_len + quic_packet.scid + quic_packet.packet_len_bytes + quic_packet.packet_num
             else:
                 associated_data = quic_packet.first_byte + quic_packet.dcid + quic_packet.packet_num
-            payload = decryptor.decrypt(quic_packet.payload, packet_number, associated_data, quic_packet.isserver)
+            try:
+                payload = decryptor.decrypt(quic_packet.payload, packet_number, associated_data, quic_packet.isserver)
+            except Exception:
+                # only a packet that authenticates may advance the largest packet number (RFC 9000, A.3)
+                self.packet_number_server, self.packet_number_client = largest_server, largest_client
+                raise
 
             frames = parse_frames(payload, quic_packet)
 
